@@ -659,17 +659,19 @@ template <class T> struct Obj : Arg {
   T* tnewp;                 // NEW: twin result
   const T* trefp;           // REF: twin result (a copy owned by the role: several C++ getters return by value)
   DelFn cdel;
-  int limit;
-  Obj(Run& R, const char* pn, Mode mode, DelFn d = 0, int lim = 0) : m(mode), c(0), tw(0), cslot(0), tnewp(0), trefp(0), cdel(d), limit(lim) { R.add(this, pn); }
-  int count() const { if (m == NEW || m == REF) return 1; int n = Menu<T>::count(); return (limit > 0 && limit < n) ? limit : n; }
+  int limit, base;          // menu entries base .. base+limit-1 (out parameters are pre-loaded with a non-trivial entry)
+  static void* sent() { return reinterpret_cast<void*>(0x5e); }   // out slots are pre-loaded with a non-null sentinel
+  bool unset() const { return cslot == 0 || cslot == sent(); }
+  Obj(Run& R, const char* pn, Mode mode, DelFn d = 0, int lim = 0, int b = 0) : m(mode), c(0), tw(0), cslot(0), tnewp(0), trefp(0), cdel(d), limit(lim), base(b) { R.add(this, pn); }
+  int count() const { if (m == NEW || m == REF) return 1; int n = Menu<T>::count() - base; return (limit > 0 && limit < n) ? limit : n; }
   void build(int i) {
     cslot = 0; tnewp = 0; trefp = 0; c = tw = 0;
-    if (m == NEW || m == REF) return;
-    c = Menu<T>::make(i); tw = Menu<T>::make(i);
+    if (m == NEW || m == REF) { cslot = sent(); return; }
+    c = Menu<T>::make(base + i); tw = Menu<T>::make(base + i);
   }
   void destroy() {
     if (m == NEW) {
-      if (cslot) { if (cdel) { if (cdel(cslot) != 0) fprintf(stderr, "c20: delete function failed\n"); } else delete static_cast<T*>(cslot); }
+      if (!unset()) { if (cdel) { if (cdel(cslot) != 0) fprintf(stderr, "c20: delete function failed\n"); } else delete static_cast<T*>(cslot); }
       delete tnewp;
     } else if (m == REF) { delete trefp; } else { delete c; delete tw; }
     c = tw = 0; cslot = 0; tnewp = 0; trefp = 0;
@@ -683,7 +685,7 @@ template <class T> struct Obj : Arg {
   void tdel() { delete tw; tw = 0; }
   void cgone() { c = 0; }
   T& cobj() { return *c; }
-  T* cnew() { return static_cast<T*>(cslot); }
+  T* cnew() { return unset() ? 0 : static_cast<T*>(cslot); }
 
   void check(Run& R, bool threw) {
     if (m == CST || m == MUT) {
@@ -692,25 +694,25 @@ template <class T> struct Obj : Arg {
       if (a != b) R.fail(m == CST ? "capi:const-handle-modified" : "capi:result-differs", std::string(pname) + " = " + brief(a), brief(b),
                          threw ? "after the C++ operation threw" : "");
     } else if (m == NEW && !threw) {
-      if (!cslot) { R.fail("capi:out-handle-unset", std::string("*") + pname + " not written, rc " + itos(R.rc), "handle of a new object"); R.stop_checks = true; return; }
+      if (unset()) { R.fail("capi:out-handle-unset", std::string("*") + pname + (cslot ? " not written, rc " : " set to null, rc ") + itos(R.rc), "handle of a new object"); R.stop_checks = true; return; }
       if (!tnewp) return;
       std::string a = dump(*static_cast<T*>(cslot)), b = dump(*tnewp);
       if (a != b) R.fail("capi:result-differs", std::string("*") + pname + " = " + brief(a), brief(b));
     } else if (m == REF && !threw) {
-      if (cslot && on_dead_stack(cslot)) {
+      if (!unset() && on_dead_stack(cslot)) {
         R.extra_trig = "handle_into_dead_frame";
         R.fail("capi:dangling-handle", std::string("*") + pname + " points into the stack frame of the returned C function (address of a temporary)", "handle of an object that outlives the call");
         R.extra_trig.clear();
         return;
       }
-      if (!cslot) { R.fail("capi:out-handle-unset", std::string("*") + pname + " not written, rc " + itos(R.rc), "handle of the result"); return; }
+      if (unset()) { R.fail("capi:out-handle-unset", std::string("*") + pname + " not written, rc " + itos(R.rc), "handle of the result"); return; }
       if (!trefp) return;
       std::string a = dump(*static_cast<const T*>(cslot)), b = dump(*trefp);
       if (a != b) R.fail("capi:result-differs", std::string("*") + pname + " = " + brief(a), brief(b));
     }
   }
-  std::string show() const { if (m == NEW) return "(out: new handle)"; if (m == REF) return "(out: const handle)"; return Menu<T>::lab(cur); }
-  std::string trig() const { if (m == NEW || m == REF) return ""; return Menu<T>::trig(cur); }
+  std::string show() const { if (m == NEW) return "(out: new handle)"; if (m == REF) return "(out: const handle)"; return Menu<T>::lab(base + cur); }
+  std::string trig() const { if (m == NEW || m == REF) return ""; return Menu<T>::trig(base + cur); }
 };
 
 // ------------------------------------------------------------------------------------------------
